@@ -418,7 +418,7 @@ def explore_chain(qname, tier, acc):
   letters = [(0, 0, 0), (0, 0, 1)] + [(1, m, ok) for m in (1, 2) for ok in (0, 1)]
   for k in range(1, L + 1):
     for seq in itertools.product(letters, repeat=k):
-      for via in ((None,) if k > 3 and tier == "quick" else VIAS):
+      for via in ((None,) if k > (3 if tier == "quick" else 4) else VIAS):        # chains into a CL queue: sequences up to length 3 (4)
         fails = run_chain(qname, seq, via)
         acc.count("executions"); acc.count("chain_executions"); acc.count("transitions", len(seq))
         for f in fails:
